@@ -65,9 +65,10 @@ where StandardNormal: Distribution<F>, Exp1: Distribution<F>, Open01: Distributi
     let f = |x: f64| F::of(x);
     let fams: Vec<(&str, Vec<Vec<F>>)> = vec![
         ("Normal", vec![vec![]]), ("Cauchy", vec![vec![]]), ("Gumbel", vec![vec![]]),
-        ("Frechet", vec![vec![f(1.0)], vec![f(0.5)], vec![f(7.0)]]), ("SkewNormal", vec![vec![f(0.0)], vec![f(1.0)], vec![f(-1.0)], vec![f(5.0)]]),
-        ("Exp", vec![vec![]]), ("Gamma", vec![vec![f(0.25)], vec![f(1.0)], vec![f(2.5)], vec![f(40.0)]]),
-        ("Weibull", vec![vec![f(1.0)], vec![f(0.3)], vec![f(4.0)]]), ("Pareto", vec![vec![f(1.0)], vec![f(0.5)], vec![f(20.0)]]),
+        // shapes include the exponents for which a special-cased power is plausible (1/2, 1, 2, 3)
+        ("Frechet", vec![vec![f(1.0)], vec![f(0.5)], vec![f(7.0)], vec![f(2.0)], vec![f(3.0)]]), ("SkewNormal", vec![vec![f(0.0)], vec![f(1.0)], vec![f(-1.0)], vec![f(5.0)]]),
+        ("Exp", vec![vec![]]), ("Gamma", vec![vec![f(0.25)], vec![f(1.0)], vec![f(2.5)], vec![f(40.0)], vec![f(0.5)], vec![f(2.0)], vec![f(3.0)]]),
+        ("Weibull", vec![vec![f(1.0)], vec![f(0.3)], vec![f(4.0)], vec![f(2.0)], vec![f(0.5)], vec![f(3.0)]]), ("Pareto", vec![vec![f(1.0)], vec![f(0.5)], vec![f(20.0)], vec![f(2.0)], vec![f(3.0)]]),
         ("InverseGaussian", vec![vec![f(1.0), f(1.0)], vec![f(0.5), f(3.0)]]),
         ("Triangular", vec![vec![f(0.0), f(1.0), f(0.5)], vec![f(0.0), f(1.0), f(0.0)], vec![f(-1.0), f(3.0), f(3.0)]]),
         ("Pert", vec![vec![f(0.0), f(1.0), f(0.5), f(4.0)], vec![f(-1.0), f(1.0), f(-0.25), f(2.0)]]),
